@@ -2,8 +2,14 @@ use crate::core::consensus::peers::peer::{Peer, PeerStatus};
 use crate::core::consensus::peers::peer_state_writer::PeerStateWriter;
 use crate::core::defs::{PeerIndex, PrintForLog, SaitoPublicKey, Timestamp};
 use log::{debug, info};
+#[cfg(not(saito_verif))]
 use std::collections::HashMap;
 use std::time::Duration;
+
+// verification hook H4: peer maps with a harness-controlled hasher, so that iteration order is a
+// function of the harness' seed instead of the process' random state
+#[cfg(saito_verif)]
+type HashMap<K, V> = std::collections::HashMap<K, V, crate::core::verif_hooks::SeededState>;
 
 const PEER_REMOVAL_WINDOW: Timestamp = Duration::from_secs(600).as_millis() as Timestamp;
 
